@@ -113,6 +113,7 @@ pub struct Shared {
     pub site_hits: Vec<AtomicU64>,
     pub in_build: Vec<AtomicBool>,
     pub preempts: Vec<Preempt>,
+    pub client_fps: Vec<u64>,
     /// hook visits per client (all sites)
     pub visits: Vec<AtomicU64>,
     /// preemptions that were carried out at the next hook because it came before the requested instruction count
@@ -125,6 +126,43 @@ thread_local! {
     /// state (kept alive by the client's own Arc for as long as this is set), who takes the baton
     static STEP_CTX: Cell<(usize, *const Shared, usize)> = const { Cell::new((0, std::ptr::null(), 0)) };
     static HOOK_VISITS: Cell<u64> = const { Cell::new(0) };
+}
+
+thread_local! {
+    static TRACE_BUF: RefCell<Vec<u32>> = const { RefCell::new(Vec::new()) };
+    /// (fingerprint of the client's history, visit) of the trace being recorded
+    static TRACE_KEY: Cell<(u64, u64)> = const { Cell::new((0, 0)) };
+}
+
+/// Stretches recorded by trace runs in this process: (history fingerprint of the client, visit) -> text offsets of
+/// the instructions arrived at after that visit.
+pub static TRACES: Mutex<BTreeMap<(u64, u64), Arc<Vec<u32>>>> = Mutex::new(BTreeMap::new());
+/// Length of the stretch recorded by the last trace run of this process.
+pub static LAST_TRACE_LEN: AtomicU64 = AtomicU64::new(0);
+
+pub fn client_fingerprint(c: &crate::workload::ClientSpec) -> u64 {
+    let mut h = fnv_mix(0xcbf2_9ce4_8422_2325, &c.hash_seed.to_le_bytes());
+    for op in &c.ops {
+        h = fnv_mix(h, op.to_json().to_string().as_bytes());
+    }
+    h
+}
+
+/// Ends whatever positioning is active on this thread (single-stepping, a trace, a breakpoint). Returns true iff a
+/// single-step preemption was still pending (it is then carried out by the caller, at the hook).
+fn end_positioning() -> bool {
+    let pending = step::disarm();
+    if step::tracing() {
+        TRACE_BUF.with(|b| {
+            let mut b = b.borrow_mut();
+            step::end_trace(&mut b);
+            LAST_TRACE_LEN.store(b.len() as u64, Ordering::SeqCst);
+            TRACES.lock().unwrap().insert(TRACE_KEY.with(|k| k.get()), Arc::new(b.clone()));
+        });
+        return false;
+    }
+    step::disarm_break();
+    pending
 }
 
 /// Parks the calling client between two instructions (called from the SIGTRAP handler) or at a hook.
@@ -158,8 +196,8 @@ fn in_library<T>(id: usize, f: impl FnOnce() -> T) -> T {
     IN_LIBRARY[id % 64].store(true, Ordering::SeqCst);
     api_entry_visit();
     let r = f();
-    // single-stepping never outlives the call it was started in
-    step::disarm();
+    // no positioning outlives the call it was started in
+    end_positioning();
     IN_LIBRARY[id % 64].store(false, Ordering::SeqCst);
     r
 }
@@ -179,7 +217,7 @@ fn site_index(site: &str) -> Option<usize> {
 
 pub fn point_hook(site: &'static str) {
     // a preemption whose instruction count reaches beyond this hook takes place here
-    let pending = step::disarm();
+    let pending = end_positioning();
     let ctx = CLIENT.with(|c| c.borrow().as_ref().map(|(id, sh)| (*id, sh.clone())));
     if let Some((id, shared)) = ctx {
         if pending {
@@ -220,11 +258,37 @@ fn maybe_preempt(id: usize, shared: Arc<Shared>, visit: u64) {
         return;
     }
     if let Some(p) = shared.preempts.iter().find(|p| p.client == id && p.visit == visit) {
-        let (steps, to) = (p.steps, p.to);
+        let (steps, to, via) = (p.steps, p.to, p.via);
         STEP_CTX.with(|c| c.set((id, Arc::as_ptr(&shared), to)));
+        let fp = shared.client_fps[id];
         drop(shared);
-        if steps == 0 || !step::available() {
+        if via == 2 && step::available() {
+            // trace run: record the stretch after this visit
+            TRACE_KEY.with(|k| k.set((fp, visit)));
+            TRACE_BUF.with(|b| {
+                let mut b = b.borrow_mut();
+                b.clear();
+                b.reserve(steps as usize);
+                step::arm_trace(&mut b);
+            });
+        } else if steps == 0 || !step::available() {
             preempt_now();
+        } else if via == 1 {
+            // breakpoint on the steps-th address of the recorded stretch, at its occurrence among the first steps
+            let trace = TRACES.lock().unwrap().get(&(fp, visit)).cloned();
+            match trace {
+                Some(t) if (steps as usize) <= t.len() => {
+                    let off = t[steps as usize - 1];
+                    let occ = t[..steps as usize].iter().filter(|x| **x == off).count() as u32;
+                    if !step::arm_break(off, occ) && steps <= 256 {
+                        // no debug register to be had: single-step (short distances only)
+                        step::arm(steps);
+                    }
+                }
+                // beyond the recorded stretch: nothing to stop at
+                Some(_) => {}
+                None => step::arm(steps),
+            }
         } else {
             step::arm(steps);
         }
@@ -385,6 +449,9 @@ fn client_main(id: usize, hash_seed: u64, ops: Vec<Op>, shared: Arc<Shared>) {
 /// of which at the next hook). Read by the adaptive sweep generator.
 pub static LAST_RUN_INFO: Mutex<(Vec<u64>, u64, u64)> = Mutex::new((Vec::new(), 0, 0));
 
+/// Longest stretch (instructions arrived at inside this executable) a trace run records after one visit.
+pub const TRACE_CAPACITY: u32 = 20_000;
+
 pub struct RunResult {
     pub events: Vec<Event>,
     pub decisions: Vec<usize>,
@@ -438,6 +505,15 @@ pub fn execute_run(spec: &RunSpec) -> RunResult {
     if !spec.preempts.is_empty() {
         step::install(preempt_now);
         warm_up_for_stepping();
+        // a breakpoint position refers to a recorded stretch: record it first if this process has none yet
+        for p in spec.preempts.iter().filter(|p| p.via == 1 && p.steps > 0) {
+            let key = (client_fingerprint(&spec.clients[p.client]), p.visit);
+            if !TRACES.lock().unwrap().contains_key(&key) {
+                let mut t = spec.clone();
+                t.preempts = vec![Preempt { client: p.client, visit: p.visit, steps: TRACE_CAPACITY, to: p.client, via: 2 }];
+                let _ = execute_run(&t);
+            }
+        }
     }
     let est_steps: u64 = spec.clients.iter().map(|c| c.ops.len() as u64).sum::<u64>() * 6 + 4;
     let all_sites = spec.sites.iter().any(|s| s == "*");
@@ -461,6 +537,7 @@ pub fn execute_run(spec: &RunSpec) -> RunResult {
         site_hits: SITES.iter().map(|_| AtomicU64::new(0)).collect(),
         in_build: (0..n).map(|_| AtomicBool::new(false)).collect(),
         preempts: spec.preempts.clone(),
+        client_fps: spec.clients.iter().map(client_fingerprint).collect(),
         visits: (0..n).map(|_| AtomicU64::new(0)).collect(),
         preempt_at_next_hook: AtomicU64::new(0),
     });
